@@ -51,6 +51,8 @@ OpsCells == {Asg("c", "+", I(1)), Asg("c", "*", I(2)), Asg("c", "/", I(0)), Dere
 OpsRender == {Asg("s", "=", R("s")), Asg("s", "=", R("c")), Asg("s", "=", I(1)), Render("s"), Deref("s"),
               Asg("c", "+", I(1)), Render("c")}
 
+OpsRenderSmall == {Asg("s", "=", R("s")), Render("s"), Asg("c", "+", I(1))}
+
 OpsLive == {Asg("s", "=", R("s")), Render("s"), Asg("c", "+", I(1)), Asg("c", "/", I(0)), Deref("c")}
 
 OpsT3 == {Asg("c", "+", I(1)), Asg("c", "*", I(2)), Asg("c", "/", I(0)), Deref("c")}
@@ -64,14 +66,14 @@ IncProg == [n \in 1..K |-> Asg("c", "+", I(1))]
 
 MCProgSpace ==
   CASE Config = "ops" ->
-         IF Thorough THEN Pairs(SeqsUpTo(OpsFull, 2))
+         IF Thorough THEN {<<p, q>> : p \in SeqsUpTo(OpsFull, 2), q \in SeqsUpTo(OpsFull, 1) \cup SeqsUpTo(OpsSmall, 2)}
          ELSE {<<p, q>> : p \in SeqsUpTo(OpsFull, 2), q \in SeqsUpTo(OpsSmall, 1)}
               \cup Pairs(SeqsUpTo(OpsSmall, 2))
     [] Config = "cells" ->
          IF Thorough THEN Pairs(SeqsUpTo(OpsCells, 2))
          ELSE {<<p, q>> : p \in SeqsUpTo(OpsCells, 2), q \in SeqsUpTo(OpsCells, 1)}
     [] Config = "render" ->
-         IF Thorough THEN Pairs(SeqsUpTo(OpsRender, 2))
+         IF Thorough THEN {<<p, q>> : p \in SeqsUpTo(OpsRender, 2), q \in SeqsUpTo(OpsRender, 1) \cup SeqsUpTo(OpsRenderSmall, 2)}
          ELSE {<<p, q>> : p \in SeqsUpTo(OpsRender, 2), q \in SeqsUpTo(OpsRender, 1)}
     [] Config = "t3" -> Triples(SeqsUpTo(OpsT3, 1)) \cup {[t \in 1..3 |-> [n \in 1..2 |-> Asg("c", "+", I(1))]]}
     [] Config = "t3x" -> Triples(SeqsUpTo(OpsT3, 2))
